@@ -4,6 +4,7 @@ import (
 	"fmt"
 	"io"
 	"math"
+	"runtime"
 	"sort"
 	"strconv"
 	"strings"
@@ -620,12 +621,47 @@ func runScopeProgram(c *Ctx, r *Rng, mode string) {
 		sep = []string{"_", "::", "-", ".", "é", "/", ":", " ", "a+b", "\xff"}[r.Intn(10)]
 	}
 	rootTags := sr.genTags(2)
+	if r.Chance(15) { // a root tag with an empty value (e.g. built from an unset environment variable)
+		k := genScopeStr(r, false)
+		dup := false
+		for k2 := range rootTags {
+			if sr.san.Key(k2) == sr.san.Key(k) {
+				dup = true
+			}
+		}
+		if !dup {
+			rootTags[k] = ""
+		}
+	}
+	rootTok := mapHex(rootTags)
 	opts := tally.ScopeOptions{Prefix: pfx, Separator: sep, Tags: rootTags, SanitizeOptions: sg.opts, OmitCardinalityMetrics: true}
 	defb := "-"
 	if r.Chance(15) {
 		b := toDurs([]int64{5e6, 1e6, 5e6})
 		opts.DefaultBuckets = b
 		defb = specTok(b)
+	}
+	// the library's own cardinality gauges (on by default in the library): a third of the programs with a
+	// reporter keep them, with 0-2 extra tags (now and then overriding one of the default keys)
+	cardTok := "omit"
+	if sr.kind != "none" && r.Chance(35) {
+		ct := sr.genTags(2)
+		if r.Chance(25) {
+			k := []string{"host", "version", "instance"}[r.Intn(3)]
+			dup := false
+			for k2 := range ct {
+				if sr.san.Key(k2) == sr.san.Key(k) {
+					dup = true
+				}
+			}
+			if !dup {
+				ct[k] = genScopeStr(r, false)
+			}
+		}
+		opts.OmitCardinalityMetrics = false
+		opts.CardinalityMetricsTags = ct
+		cardTok = mapHex(ct)
+		c.Cov.Hit("cardinality-metrics-on")
 	}
 	var ts tally.TestScope
 	switch sr.kind {
@@ -644,9 +680,20 @@ func runScopeProgram(c *Ctx, r *Rng, mode string) {
 			opts.CachedReporter = sr.recC
 		}
 	}
+	// a third of the roots are created through the exported constructors (NewRootScope / NewTestScope) rather than
+	// the shims with an explicit shard count: the registry then has GOMAXPROCS shards
+	public := r.Chance(33) && !aliasMode
+	if public {
+		shards = uint(runtime.GOMAXPROCS(-1))
+		c.Cov.Hit("root-through-exported-constructor")
+	}
 	if sr.kind == "none" {
 		// test scope: same as NewTestScope, but keep the options above (sanitizer etc. are not available there)
-		ts = tally.VerifNewTestScope(pfx, rootTags, shards)
+		if public {
+			ts = tally.NewTestScope(pfx, rootTags)
+		} else {
+			ts = tally.VerifNewTestScope(pfx, rootTags, shards)
+		}
 		sr.root = ts
 		sr.closer = ts.(io.Closer)
 		sg = sanGen{nil, "-"}
@@ -654,6 +701,8 @@ func runScopeProgram(c *Ctx, r *Rng, mode string) {
 		sep = ""
 		defb = "-"
 		closable = false
+	} else if public {
+		sr.root, sr.closer = tally.NewRootScope(opts, 0)
 	} else {
 		sr.root, sr.closer = tally.VerifNewRootScope(opts, 0, shards)
 	}
@@ -661,11 +710,28 @@ func runScopeProgram(c *Ctx, r *Rng, mode string) {
 	if closable {
 		cl = "1"
 	}
-	rootLine := fmt.Sprintf("root %s %s %d %s %s %s %s %s", sr.kind, cl, shards, sg.tok, hxs(pfx), hxs(sep), mapHex(rootTags), defb)
+	// the library must not have mutated the caller's maps (ScopeOptions is passed by value, its maps are not)
+	if mapHex(rootTags) != rootTok || (opts.CardinalityMetricsTags != nil && mapHex(opts.CardinalityMetricsTags) != cardTok) {
+		c.Cov.Fail(Failure{Kind: "violated", Clause: "caller-map-not-mutated", Signature: sr.sigBase + "root-options-map-mutated",
+			Line:  fmt.Sprintf("root tags %s, cardinality tags %s handed to the constructor", rootTok, cardTok),
+			Reply: fmt.Sprintf("after the constructor returned: root tags %s", mapHex(rootTags))})
+	}
+	rootLine := fmt.Sprintf("root %s %s %d %s %s %s %s %s", sr.kind, cl, shards, sg.tok, hxs(pfx), hxs(sep), rootTok, defb)
+	if cardTok != "omit" {
+		// the registry's constructor allocates the four gauges from a cached reporter
+		rootLine += " " + cardTok + " => " + sr.events()
+	}
 	sr.lines = append(sr.lines, rootLine)
 	if rep := c.Drv.Ask(rootLine); rep != "ok" {
-		c.Cov.Fail(Failure{Kind: "bad-op", Clause: "root", Signature: sr.sigBase + "root", Line: rootLine, Reply: rep})
-		return
+		kind := "bad-op"
+		if strings.HasPrefix(rep, "differ") {
+			kind = "differ"
+		}
+		c.Cov.Fail(Failure{Kind: kind, Clause: "root", Signature: sr.sigBase + "root", Line: rootLine, Reply: rep})
+		if kind == "bad-op" {
+			return
+		}
+		sr.failed = true
 	}
 	// mutate the caller's root tag map: must change nothing
 	for k := range rootTags {
